@@ -1,4 +1,5 @@
 import PV.Proofs.ScoreLemmas
+import PV.Proofs.RatArith
 import PV.Model.Summary
 import PV.Generated.SummaryFacts
 import PV.Generated.ScoreConsts
@@ -418,5 +419,9 @@ theorem C15_summary_facts : PV.Generated.SummaryFacts.calculateSummary = [
   "if: err != nil",
   "assign: summary.HealthScore = summary.CalculateFallbackScore()",
   "assign: summary.Grade = domain.GetGradeFromScore(summary.HealthScore)"] := rfl
+
+
+/-- the order laws assumed of `float64` (`MonoArith`) are satisfiable: exact rational arithmetic is an instance, so none of the theorems above is vacuous -/
+theorem C15_assumption_consistent : Nonempty (MonoArith ℚ) := MonoArith_consistent
 
 end PV.C15
